@@ -499,6 +499,57 @@ func runLockProbe(id int) map[string]any {
 	return res
 }
 
+// runRecoverProbe (translator, tools/c04consts.py): what does handler.RecoverHandler do to the writer it
+// was given when the work panics?  The writer starts with every header name of the vocabulary set to "x";
+// reported: names deleted, names set (with their values), the status, the chunks written.
+func runRecoverProbe(id int, vocab []string) map[string]any {
+	res := map[string]any{"id": id, "kind": "recoverprobe"}
+	rec := &probeWriter{h: http.Header{}}
+	for _, n := range vocab {
+		rec.h.Set(n, "x")
+	}
+	before := rec.h.Clone()
+	func() {
+		defer func() {
+			if p := recover(); p != nil {
+				res["err"] = fmt.Sprintf("the RecoverHandler let a panic through: %v", p)
+			}
+		}()
+		req, _ := http.NewRequest(http.MethodGet, "http://localhost/x", http.NoBody)
+		handler.RecoverHandler(http.HandlerFunc(func(http.ResponseWriter, *http.Request) { panic(pv(1)) })).ServeHTTP(rec, req)
+	}()
+	dels, sets := []string{}, map[string][]string{}
+	for n := range before {
+		if _, ok := rec.h[n]; !ok {
+			dels = append(dels, n)
+		}
+	}
+	for n, vs := range rec.h {
+		if old, ok := before[n]; !ok || strings.Join(old, "\x00") != strings.Join(vs, "\x00") {
+			sets[n] = vs
+		}
+	}
+	res["dels"], res["sets"], res["status"], res["writes"] = dels, sets, rec.code, rec.chunks
+	return res
+}
+
+type probeWriter struct {
+	h      http.Header
+	code   int
+	chunks [][]int
+}
+
+func (w *probeWriter) Header() http.Header { return w.h }
+func (w *probeWriter) WriteHeader(c int)   { w.code = c }
+func (w *probeWriter) Write(p []byte) (int, error) {
+	c := make([]int, len(p))
+	for i, b := range p {
+		c[i] = int(b)
+	}
+	w.chunks = append(w.chunks, c)
+	return len(p), nil
+}
+
 // errID identifies what a wrapper returned BY IDENTITY: nil, context.DeadlineExceeded,
 // context.Canceled, one of the work's own errors "e<N>"; anything else (a custom cancel
 // cause, a wrapped context error, ...) is -99 and belongs to no allowed result.
@@ -571,6 +622,12 @@ func main() {
 			}
 		case "lockprobe":
 			w.Put(runLockProbe(k.ID))
+		case "recoverprobe":
+			var c struct {
+				Vocab []string `json:"vocab"`
+			}
+			_ = json.Unmarshal(raw, &c)
+			w.Put(runRecoverProbe(k.ID, c.Vocab))
 		case "seq":
 			var c SeqCase
 			if err := json.Unmarshal(raw, &c); err != nil {
